@@ -13,7 +13,8 @@ offset over the lines).
 How the source is run (everything else is the unmodified code):
 
   * LITERALS.  The module is compiled from its current source text with one mechanical change: every float literal
-    `c` becomes the symbolic literal `lit c` (int literals, which also size arrays, stay ints).  Local constants and
+    `c` becomes the symbolic literal `lit c` (int literals, which also size arrays, stay ints), and a true division
+    whose two operands are integers at run time (`8 / 3`) becomes the exact symbolic quotient.  Local constants and
     defaults (`scan_rate = 8 / 3.`, `sampling_interval = abs(scan_rate) / scan_len`, `frequency=1 / 6.0`,
     `np.deg2rad(-scan_angle)`, `np.arctan2(11.87 / 2, 824.0)`) are therefore expressions over the literals of the
     source text and not doubles (DESIGN 2.4: the real-number reading of a literal is the number written in the
@@ -52,15 +53,48 @@ SRC = os.path.join(REPO, "pyorbital", "geoloc_instrument_definitions.py")
 
 # ------------------------------------------------------------------ literal lifting
 class _LiftFloats(ast.NodeTransformer):
+    """`c` -> `__pv_lit(c)` for float literals; `a / b` -> `__pv_div(a, b)` (symbolic only when both sides are integers)."""
+
     def visit_Constant(self, node):
         if type(node.value) is float:
             return ast.copy_location(ast.Call(func=ast.Name(id="__pv_lit", ctx=ast.Load()),
                                               args=[ast.Constant(node.value)], keywords=[]), node)
         return node
 
+    def visit_BinOp(self, node):
+        self.generic_visit(node)
+        if isinstance(node.op, ast.Div):
+            return ast.copy_location(ast.Call(func=ast.Name(id="__pv_div", ctx=ast.Load()),
+                                              args=[node.left, node.right], keywords=[]), node)
+        return node
+
 
 def _lit(x):
     return Sym(Expr("lit", float(x)))
+
+
+def _is_int(x):
+    import numpy as np
+    if isinstance(x, bool):
+        return False
+    if isinstance(x, (int, np.integer)):
+        return True
+    return isinstance(x, np.ndarray) and x.dtype.kind in "iu"
+
+
+def _div(a, b):
+    """True division.  Integer / integer is the one way the source makes an inexact double without a float literal
+    (`8 / 3`, `np.arange(n) / 31`): it stays an exact symbolic quotient.  Everything else is the ordinary `/`."""
+    import numpy as np
+    if _is_int(a) and _is_int(b):
+        if isinstance(a, np.ndarray) or isinstance(b, np.ndarray):
+            bc = np.broadcast(a, b)
+            out = np.empty(bc.shape, dtype=object)
+            for idx in np.ndindex(bc.shape):
+                out[idx] = Sym(Expr("div", E(np.broadcast_to(a, bc.shape)[idx]), E(np.broadcast_to(b, bc.shape)[idx])))
+            return out
+        return Sym(Expr("div", E(a), E(b)))
+    return a / b
 
 
 # ------------------------------------------------------------------ arrays that can be indexed symbolically
@@ -193,7 +227,7 @@ def load_definitions():
         sys.path.insert(0, REPO)
     src = open(SRC).read()
     tree = ast.fix_missing_locations(_LiftFloats().visit(ast.parse(src)))
-    ns = {"__name__": "pv_traced_geoloc_instrument_definitions", "__pv_lit": _lit}
+    ns = {"__name__": "pv_traced_geoloc_instrument_definitions", "__pv_lit": _lit, "__pv_div": _div}
     exec(compile(tree, SRC, "exec"), ns)
     SymSel, PtsArr, IdxArr, SymArr, pts = _classes()
     ns["np"] = _np_proxy(SymArr, IdxArr)
